@@ -21,16 +21,17 @@ PID = 'C11'
 
 TIERS = {
     #            4-site meshes, singles 1-in-Thin, lines, twins, pairs (free riders), 5-site meshes, Thin5, B3 seeded, CORONET
-    'quick': dict(meshes4=300, thin=15, lines=12, twins=2, pairs=12, meshes5=0, thin5=0, b3=40, conus=14, glob=0),
-    'thorough': dict(meshes4=None, thin=24, lines=8, twins=1, pairs=6, meshes5=150, thin5=15, b3=300, conus=60, glob=25),
+    'quick': dict(meshes4=300, thin=15, lines=12, twins=6, pairs=12, meshes5=0, thin5=0, b3=40, conus=14, glob=0),
+    'thorough': dict(meshes4=None, thin=24, lines=8, twins=3, pairs=6, meshes5=150, thin5=15, b3=300, conus=60, glob=25),
 }
 
 
-def b1_runs(ids4, w):
+def b1_runs(ids4, w, doubling=False):
     """the two model-checking runs of B1 as thunks (run side by side with the generation)"""
     def small():
-        return ('MC_Routing 3 sites: all 125 meshes, all src/dst, all include lists <= 2, all labellings',
-                tlc.run('MC_Routing', cfg_text=ru.mc_cfg(NSites=3, OneSrcDst=False, LinePer=12, TwinPer=3, PairPer=9),
+        return (f'MC_Routing 3 sites: all {500 if doubling else 125} meshes, all src/dst, all include lists <= 2, all labellings',
+                tlc.run('MC_Routing', cfg_text=ru.mc_cfg(NSites=3, OneSrcDst=False, LinePer=12, TwinPer=3, PairPer=9,
+                                                         Doubling=doubling),
                         timeout=1800, tag='c11-mc3', workers=w))
 
     def four():
@@ -58,14 +59,17 @@ def run(chk):
     rng = random.Random(chk.seed)
     salt = chk.seed % 10007
     all4 = p['meshes4'] is None
-    ids4 = list(range(1, ru.BASE ** 6)) if all4 else [i for i in ru.stratified_meshes(4, p['meshes4'], rng) if i != 0]
+    if all4:       # every mesh without parallel links, plus a seeded sample of those with one doubled pair of sites
+        ids4 = list(range(1, ru.BASE ** 6)) + [i for i in ru.stratified_meshes(4, 8000, rng) if i >= ru.BASE ** 6]
+    else:
+        ids4 = [i for i in ru.stratified_meshes(4, p['meshes4'], rng) if i != 0]
     t0 = time.time()
     gen = dict(NSites=4, OneSrcDst=False, Thin=p['thin'], LinePer=p['lines'], TwinPer=p['twins'], PairPer=p['pairs'],
                TriplePer=0, OverlapPer=0, Salt=salt)
     parts = ru.slices(ids4, 2048)              # bounded memory: generate / replay / judge 2048 meshes at a time
     big = None
     if all4:                                   # the exhaustive 4-site run goes on beside the whole replay
-        small, four = b1_runs(None, max(2, ru.nworkers() // 2))
+        small, four = b1_runs(None, max(2, ru.nworkers() // 2), doubling=True)
         big = ru.background(four)
         w = ru.share(4)
         (n1, r1), jobs = ru.parallel(small, lambda: ru.generate(chk, parts[0], 'c11-gen4', workers=w, **gen))
@@ -115,11 +119,12 @@ def run(chk):
         chk.add_mc(n2, r2)
         timing['waited_for_exhaustive_b1'] = round(time.time() - t1, 1)
     chk.cov['timing_s'] = timing
-    chk.assume('generated meshes: 4 (thorough also 5) ROADM sites, at least one link, no parallel links, fibre pairs of '
+    chk.assume('generated meshes: 4 (thorough also 5) ROADM sites, at least one link, at most one pair of sites joined by two parallel link pairs, fibre pairs of '
                '50/140/300 km or 0 km amplifier-only patches (whole km: edge weights add 0.01 m per non-fibre hop, so length '
                'order = fibre length order; equal lengths are all accepted)')
-    chk.assume('include lists name ROADMs or fibres of existing links, never a transceiver, an unknown element or the '
-               'same element twice; source != destination')
+    chk.assume('include lists name ROADMs, line elements of existing links, or (LOOSE hops only) elements that do not exist; '
+               'never a transceiver, a STRICT unknown element (ServiceError by design) or the same element twice; '
+               'source != destination')
     chk.assume('mixed LOOSE/STRICT list that cannot be met although its STRICT hops alone could: unjudged '
                '(either blocked or a route through the STRICT hops is accepted)')
     chk.assume('requests inside a synchronisation group: optimality not claimed (property text); judged by C12')
